@@ -13,6 +13,10 @@ from dataclasses import dataclass, field as dc_field
 from typing import Any, Optional
 
 
+# instance attributes of universe classes that are not fields (suffix of the class name -> attribute names)
+EXTRA_ATTRS = {"Arity": ("arity", "first_arg", "arg_vs")}
+
+
 @dataclass
 class FS:
     """Field spec."""
@@ -459,6 +463,14 @@ def core_specs(P: str = "U", variant: int = 0) -> list[CS]:
                 FS("has_doc", "prop", "bool", "derived", init=False, compare=False, default="False"),
             ),
             body="    def __post_init__(self):\n        object.__setattr__(self, 'n', len(self.items))\n        object.__setattr__(self, 'has_doc', bool(self.doc))\n        super().__post_init__()\n",
+        ),
+        # instance attributes that are neither dataclass fields nor class attributes (set in __post_init__, before and after
+        # the base class's): plain attributes of the object, EXTRA_ATTRS names them
+        CS(
+            f"{P}Arity",
+            (E,),
+            F(FS("args", "child", f"tuple[{E}, ...]", "tuple", (E,), default="()"), FS("v", "prop", "int", "int", default="0")),
+            body="    def __post_init__(self):\n        object.__setattr__(self, 'arity', len(self.args))\n        super().__post_init__()\n        object.__setattr__(self, 'first_arg', self.args[0] if self.args else None)\n        object.__setattr__(self, 'arg_vs', tuple(getattr(a, 'v', None) for a in self.args))\n",
         ),
         # nested tuple values (where the nesting opens and closes is part of the value)
         CS(f"{P}Nested", (E,), F(FS("tt", "prop", "tuple[Any, ...]", "nested", default="()"), FS("kid", "child", f"{E} | None", "opt", (E,), default="None"))),
